@@ -268,8 +268,15 @@ GUARDED = [
     ('AdjointVisitor', 'ifblock_node'),
 ]
 
+
+PREDICATES = [
+    ('module:src/psyclone/psyad/utils.py', 'node_is_active', False),
+]
+
 def check(idx, run):
     run.explanation = __doc__
+    from sa.guards import check_predicates
+    check_predicates(idx, run, "C19.R6", PREDICATES)
     from sa.guards import check_guards
     check_guards(idx, run, "C19.R5", GUARDED)
     check_sign_flow(idx, run)
